@@ -239,6 +239,51 @@ def run(ck):
                   "7-bit groups are shifted into a fixed-width integer by a loop-dependent amount: values beyond its width lose their high groups although the schema admits them", f.loc(narrow[0]) if narrow else f.loc())
     ck.floor("DEFUSE", "LEB128 big-integer codecs", nleb, 4)
 
+    # FunctionV2's tag encodes WHICH of (parameter, return value, error) follow. Writer: tag chosen from the three presence
+    # flags; reader: each field is read for a set of tags. Both tables are read off the code by conditional constant
+    # propagation per tag value / per flag combination (vlib/sccp.py) and must be inverse to each other
+    from vlib import sccp
+    import itertools
+    wq = [p0 for p0 in c.paths() if re.search(r"schema::FunctionV2 as .*Serial>::serial$", p0)]
+    rq = [p0 for p0 in c.paths() if re.search(r"schema::FunctionV2 as .*Deserial>::deserial$", p0)]
+    if ck.anchor(len(wq) == 1 and len(rq) == 1, "TAB", "schema::FunctionV2", "Serial and Deserial implementations"):
+        fw, fr = Fn(c.get_all(wq[0])[0]), Fn(c.get_all(rq[0])[0])
+        iss = []
+        for (bi, t) in fw.calls(r"Option::<T>::is_some$"):
+            fl = sorted(a[1] for a in fw.origins(t["args"][0], deep=True) if a[0] == "field" and not a[1].isdigit())
+            if len(fl) == 1:
+                iss.append((t["dest"][0], fl[0]))
+        wtab = {}
+        if len(iss) == 3:
+            cands = {}
+            for bi in fw.reachable():
+                for st in fw.stmts(bi):
+                    if "lhs" in st and not st["lhs"][1] and st["rv"].get("k") == "use" and op_const(st["rv"]["a"]) is not None and op_const(st["rv"]["a"]).get("ty") == "u8":
+                        cands.setdefault(st["lhs"][0], []).append((bi, const_int(op_const(st["rv"]["a"]))))
+            tagl = max(cands, key=lambda l: len(cands[l])) if cands else None
+            for combo in itertools.product([0, 1], repeat=3):
+                ex = sccp.reachable_blocks(fw, iss[0][0], combo[0], {iss[i][0]: combo[i] for i in range(3)})
+                ks = sorted(set(k for (bi, k) in cands.get(tagl, []) if bi in ex))
+                if len(ks) == 1:
+                    wtab[ks[0]] = frozenset(iss[i][1] for i in range(3) if combo[i])
+        idx = [l for l in range(1, len(fr.locals)) if fr.locals[l] == "u8" and any(si == "t" and re.search(r"read_u8$", it["f"].get("path", "")) for (_, si, it) in fr.defs().get(l, []))]
+        rtab = {}
+        ins = [(bi, sorted(a[1] for a in fr.origins(t["args"][0], deep=True) if a[0] == "field" and not a[1].isdigit())) for (bi, t) in fr.calls(r"Option::<T>::insert$")]
+        # the tag local: the one the switches test (payload of the `?` on read_u8)
+        tagc = [l for l, nm in fr.names().items() if nm in ("idx", "tag")]
+        acc_r, _ = fr.accept_points()
+        for v in range(0, 256):
+            if not tagc:
+                break
+            ex = sccp.reachable_blocks(fr, tagc[0], v)
+            if not any(a in ex for a in acc_r):
+                continue        # refused tag
+            rtab[v] = frozenset(fl[0] for (bi, fl) in ins if bi in ex and len(fl) == 1)
+        okt = len(wtab) == 8 and wtab == rtab
+        ck.ob("TAB", "schema::FunctionV2", "tag-table-inverse", okt,
+              "the 8 tags written for the presence combinations are exactly the tags accepted, and each is read back as the same combination" if okt else
+              "writer and reader disagree on what a tag announces: %s" % {k: (sorted(wtab.get(k, ["-"])), sorted(rtab.get(k, ["-"]))) for k in sorted(set(wtab) | set(rtab)) if wtab.get(k) != rtab.get(k)}, fr.loc())
+
     # totality on truncated input: inside a loop driven by a declared length, a failed read ends the loop. A loop that
     # records the failure and goes on performs `length` iterations (each allocating an error) on an input that only holds
     # the length prefix.
